@@ -1976,3 +1976,201 @@ mod tests {
         Ok(())
     }
 }
+
+/// Verification hooks (add-only, compiled only with the `verif-hooks` feature).
+///
+/// Exposes the private incremental tokeniser over caller supplied patterns, the
+/// production decoders with the input span of every item they produce, and the
+/// per-prefix accepting/terminal trace of the production automata.
+#[cfg(feature = "verif-hooks")]
+pub mod verif_hooks {
+    use super::*;
+
+    /// Matcher over a caller supplied pattern
+    #[derive(Debug)]
+    struct PatternMatcher {
+        nfa: NFA<usize>,
+        index: usize,
+        via_decode: bool,
+    }
+
+    impl Matcher for PatternMatcher {
+        type Item = usize;
+
+        fn matcher(&self) -> Either<NFA<Void>, NFA<Self::Item>> {
+            if self.via_decode {
+                // pattern must not carry tags in this mode
+                Either::Left(self.nfa.clone().tags_map(|_| -> Void {
+                    unreachable!("pattern with tags used in via_decode mode")
+                }))
+            } else {
+                Either::Right(self.nfa.clone().tag_stop_state(self.index))
+            }
+        }
+
+        fn decode(&self, _data: &[u8]) -> Option<Self::Item> {
+            Some(self.index)
+        }
+    }
+
+    /// Token produced by the tokeniser core
+    #[derive(Debug, Clone, PartialEq, Eq)]
+    pub struct Token<T> {
+        /// recognised item or unrecognised bytes
+        pub item: Result<T, Vec<u8>>,
+        /// offset in the whole fed input just past this item
+        pub end: usize,
+    }
+
+    fn feed_matcher<T: Clone + Ord>(
+        matcher: &mut MatcherDecoder<T>,
+        fed: &mut usize,
+        chunk: &[u8],
+        out: &mut Vec<Token<T>>,
+    ) -> Result<(), Error> {
+        let mut cursor = std::io::Cursor::new(chunk);
+        loop {
+            let before = cursor.position() as usize;
+            let item = matcher.decode(&mut cursor)?;
+            *fed += cursor.position() as usize - before;
+            match item {
+                None => return Ok(()),
+                Some(item) => {
+                    let pending = matcher.buffer.len() + matcher.rescheduled.len();
+                    out.push(Token {
+                        item: item.map_err(|raw| raw.into_vec()),
+                        end: *fed - pending,
+                    });
+                }
+            }
+        }
+    }
+
+    /// The private incremental tokeniser instantiated over caller supplied patterns.
+    /// Pattern `i` produces item `i`.
+    pub struct Tokenizer {
+        matcher: MatcherDecoder<usize>,
+        fed: usize,
+    }
+
+    impl Tokenizer {
+        /// `via_decode`: route recognised items through `Matcher::decode` (the path used by
+        /// parsed sequences) instead of automata tags (the path used by literal keys).
+        pub fn new(patterns: Vec<NFA<usize>>, via_decode: bool) -> Self {
+            let matchers = patterns.into_iter().enumerate().map(|(index, nfa)| {
+                Box::new(PatternMatcher {
+                    nfa,
+                    index,
+                    via_decode,
+                }) as Box<dyn Matcher<Item = usize>>
+            });
+            Self {
+                matcher: MatcherDecoder::new(MatcherAutomata::new(matchers)),
+                fed: 0,
+            }
+        }
+
+        /// Feed one read worth of bytes, collect all tokens that become available
+        pub fn feed(&mut self, chunk: &[u8], out: &mut Vec<Token<usize>>) -> Result<(), Error> {
+            feed_matcher(&mut self.matcher, &mut self.fed, chunk, out)
+        }
+
+        /// Number of fed bytes not yet covered by an emitted token
+        pub fn pending(&self) -> usize {
+            self.matcher.buffer.len() + self.matcher.rescheduled.len()
+        }
+    }
+
+    /// Production event decoder reporting the span of every event
+    pub struct EventTokenizer {
+        decoder: TTYEventDecoder,
+        fed: usize,
+    }
+
+    impl Default for EventTokenizer {
+        fn default() -> Self {
+            Self::new()
+        }
+    }
+
+    impl EventTokenizer {
+        pub fn new() -> Self {
+            Self {
+                decoder: TTYEventDecoder::new(),
+                fed: 0,
+            }
+        }
+
+        pub fn feed(
+            &mut self,
+            chunk: &[u8],
+            out: &mut Vec<Token<TerminalEvent>>,
+        ) -> Result<(), Error> {
+            feed_matcher(&mut self.decoder.matcher, &mut self.fed, chunk, out)
+        }
+
+        pub fn pending(&self) -> usize {
+            self.decoder.matcher.buffer.len() + self.decoder.matcher.rescheduled.len()
+        }
+    }
+
+    /// Production command decoder reporting the span of every command
+    pub struct CommandTokenizer {
+        decoder: TTYCommandDecoder,
+        fed: usize,
+    }
+
+    impl Default for CommandTokenizer {
+        fn default() -> Self {
+            Self::new()
+        }
+    }
+
+    impl CommandTokenizer {
+        pub fn new() -> Self {
+            Self {
+                decoder: TTYCommandDecoder::new(),
+                fed: 0,
+            }
+        }
+
+        pub fn feed(
+            &mut self,
+            chunk: &[u8],
+            out: &mut Vec<Token<TerminalCommand>>,
+        ) -> Result<(), Error> {
+            feed_matcher(&mut self.decoder.matcher, &mut self.fed, chunk, out)
+        }
+
+        pub fn pending(&self) -> usize {
+            self.decoder.matcher.buffer.len() + self.decoder.matcher.rescheduled.len()
+        }
+    }
+
+    fn trace<T>(dfa: &DFA<T>, input: &[u8]) -> Vec<(bool, bool)> {
+        let mut out = Vec::new();
+        let mut state = dfa.start();
+        for byte in input {
+            match dfa.transition(state, *byte) {
+                None => break,
+                Some(next) => {
+                    let info = dfa.info(next);
+                    out.push((info.is_accepting, info.is_terminal));
+                    state = next;
+                }
+            }
+        }
+        out
+    }
+
+    /// Walk production event automata from its start state over `input`: one
+    /// `(accepting, terminal)` entry per consumed byte, stops at the first dead transition.
+    pub fn event_trace(input: &[u8]) -> Vec<(bool, bool)> {
+        trace(&TTY_EVENT_AUTOMATA.automata, input)
+    }
+
+    /// Same as [event_trace] for production command automata
+    pub fn command_trace(input: &[u8]) -> Vec<(bool, bool)> {
+        trace(&TTY_COMMAND_AUTOMATA.automata, input)
+    }
+}
